@@ -478,6 +478,8 @@ def replay_with(doc, ctx_standin, ghost_override=None, cand=None):
                 obj = cls.__new__(cls)
                 cls.__init__(obj, **rest)
                 res = obj
+                if 'self' in args:
+                    args['self'] = obj      # the postcondition of __init__ speaks about the constructed object
             elif isinstance(raw, staticmethod):
                 res = raw.__func__(**rest)
             elif isinstance(raw, classmethod):
